@@ -1,6 +1,7 @@
 package c08
 
 import (
+	"errors"
 	"fmt"
 	"math/rand"
 	"runtime"
@@ -31,8 +32,8 @@ const (
 	opFail op = iota
 	opSucc
 	opAsk
-	opDlt // Δ < timeout (and > probe window)
-	opDgt // Δ > timeout
+	opDlt  // Δ < timeout (and > probe window)
+	opDgt  // Δ > timeout
 	opDwin // Δ > probe window, far below timeout
 )
 
@@ -86,6 +87,17 @@ func (b *unifierB) Fail()                 { b.cb.RecordFailure() }
 func (b *unifierB) Succ()                 { b.cb.RecordSuccess() }
 func (b *unifierB) Shift(d time.Duration) { b.cb.VerifShift(d) }
 
+// managerB drives the unification breaker the way LifecycleUnifier.UnifyModels does: through
+// the EndpointManager that owns the per-endpoint breakers.
+type managerB struct{ m *unifier.EndpointManager }
+
+const mURL = "http://10.9.9.9:11434"
+
+func (b *managerB) Ask() bool             { return b.m.GetCircuitBreaker(mURL).Allow() }
+func (b *managerB) Fail()                 { b.m.RecordFailure(mURL, errors.New("unification failed")) }
+func (b *managerB) Succ()                 { b.m.RecordSuccess(mURL) }
+func (b *managerB) Shift(d time.Duration) { b.m.GetCircuitBreaker(mURL).VerifShift(d) }
+
 // reference models ------------------------------------------------------------------------
 
 type kind int
@@ -116,10 +128,10 @@ type st struct {
 }
 
 type model struct {
-	sp    *spec
-	now   float64
-	set   []st
-	edge  bool // a comparison came within the safety margin -> sequence is inconclusive
+	sp   *spec
+	now  float64
+	set  []st
+	edge bool // a comparison came within the safety margin -> sequence is inconclusive
 }
 
 func newModel(sp *spec) *model {
@@ -445,6 +457,12 @@ func specs() []*spec {
 		cfg := unifier.CircuitBreakerConfig{Enabled: true, FailureThreshold: c[0], SuccessThreshold: c[1], OpenDuration: 60 * time.Second, HalfOpenRequests: c[2]}
 		out = append(out, &spec{kind: kUnifier, name: fmt.Sprintf("unifier(FT=%d,ST=%d,HO=%d)", c[0], c[1], c[2]), FT: c[0], ST: c[1], HO: c[2], timeout: 60,
 			mk: func() breaker { return &unifierB{unifier.NewCircuitBreaker(cfg)} }})
+		if c[0] == 5 || c[0] == 2 {
+			mcfg := unifier.DefaultConfig()
+			mcfg.CircuitBreaker = cfg
+			out = append(out, &spec{kind: kUnifier, name: fmt.Sprintf("unifier-via-endpoint-manager(FT=%d,ST=%d,HO=%d)", c[0], c[1], c[2]), FT: c[0], ST: c[1], HO: c[2], timeout: 60,
+				mk: func() breaker { return &managerB{unifier.NewEndpointManager(mcfg, world.Logger())} }})
+		}
 	}
 	return out
 }
